@@ -422,5 +422,13 @@ MUTANTS = [
     {"name": "source-sink-swapped", "file": NF, "old": "source = self._reactants.difference(self._products)", "new": "source = self._reactants.difference(self._reactants)", "rules": ["R4"]},
 ]
 BENIGN = [
+    {"name": "species-memo-reset-by-every-writer", "edits": [
+        {"file": NF, "old": "            list[Species]: species in the network\n        \"\"\"\n", "new": "            list[Species]: species in the network\n        \"\"\"\n        if self._spc is not None:\n            return list(self._spc)\n"},
+        {"file": NF, "old": "        speclist = sorted(speclist, key=lambda x: (len(connection[x]), x))\n", "new": "        speclist = sorted(speclist, key=lambda x: (len(connection[x]), x))\n        self._spc = speclist\n"},
+        {"file": NF, "old": "        self._skipped_reactions = []\n\n        # TODO: rename", "new": "        self._skipped_reactions = []\n        self._spc = None\n\n        # TODO: rename"},
+        {"file": NF, "old": "        self.reaction_list.append(reaction)\n", "new": "        self.reaction_list.append(reaction)\n        self._spc = None\n"},
+        {"file": NF, "old": "        self.reaction_list = []\n        self._skipped_reactions = []\n\n        for reaction in recorded_reactions:", "new": "        self.reaction_list = []\n        self._skipped_reactions = []\n        self._spc = None\n\n        for reaction in recorded_reactions:"},
+        {"file": NF, "old": "        self._products = {p for reac in self.reaction_list for p in reac.products}\n", "new": "        self._products = {p for reac in self.reaction_list for p in reac.products}\n        self._spc = None\n"},
+        {"file": NF, "old": "        self._required_species = [Species(s, **self._species_kwargs) for s in speclist]\n", "new": "        self._required_species = [Species(s, **self._species_kwargs) for s in speclist]\n        self._spc = None\n"}]},
     {"name": "filter-condition-restructured", "file": NF, "old": "        if self._allowed_species:\n            if not all(", "new": "        if len(self._allowed_species) > 0 and self._allowed_species:\n            if not all("},
 ]
